@@ -15,3 +15,14 @@ check('C16', 'symbolic execution of the MIR of Sanitizer::* with all inputs up t
 NA['C02'] = 'git extraction: the subject is std::process::Command("git") against a real object database over arbitrary DAGs; neither symbolic engine can execute a subprocess and a solver model of git would verify the model, not zerv (DESIGN §6)'
 NA['C14'] = 'environment independence quantifies over processes, time zones, locales and cwd; symbolic execution of functions has no process environment (DESIGN §6)'
 NA['C18'] = 'finite table comparison between python source and clap derive metadata plus process execution; nothing to decide symbolically, clap builder code is outside both engines (DESIGN §6)'
+
+check('C10', 'symbolic execution of the MIR of <SemVer as Ord>::cmp / PartialEq::eq / partial_cmp on symbolic version pairs and triples; z3 compares against an independent SemVer 2.0.0 §11 comparator',
+      'Two (three) SemVer records with fully symbolic u64 numbers and symbolic identifier contents (shape enumerated: pre-release lists up to 2 (thorough 3) identifiers, strings up to 2 (3) chars, arbitrary build metadata) are run through the real comparator MIR; per path z3 is asked for values where cmp differs from the spec comparator, where cmp(b,a) is not the reverse, where == disagrees with cmp == Equal, where partial_cmp differs, or where transitivity fails. Every model is replayed on the native build before it is reported.',
+      'trusted: python models of Ord for u64/String, Vec indexing, Ordering::then_with; the spec oracle; z3. Bounded: longer lists/strings are outside.',
+      'DESIGN.md §7 C10')
+check('C11', 'symbolic execution of the MIR of <PEP440 as Ord>::cmp / eq with symbolic presence bits and numbers; z3 compares against the lexicographic key of the statement',
+      'PEP440 records with symbolic epoch/release numbers (any u32), symbolic presence of pre/post/dev parts, their labels and numbers, and local segment lists of enumerated shape are run through the real comparator MIR; z3 looks for a pair where cmp differs from the documented key order, antisymmetry or eq-consistency fails, or a triple breaking transitivity. Models are replayed natively.',
+      'trusted: python models of Ord for u32/String/Vec, Option::unwrap_or, slice::get; the key oracle; z3. Spelling independence (parser side) is decided with the parser obligations of C09. Bounded: release <= 3 (4), local <= 2 (3) segments.',
+      'DESIGN.md §7 C11')
+for e in ENGINES:
+    e['serves_properties'] = sorted(set(e['serves_properties']) | {'C10', 'C11'})
